@@ -247,6 +247,12 @@ def _carry_drops(facts, col, body, carry, owner):
                         "bytes already received are lost and every later sample is assembled from misaligned bytes" % (f, how), {})
 
 
+
+# a body that raises an alarm as compiled is judged again on its work view (effects.view_fallback)
+rule_r2 = effects.view_fallback(rule_r2)
+rule_r4 = effects.view_fallback(rule_r4)
+rule_r5 = effects.view_fallback(rule_r5)
+
 def run(ctx):
     facts = ctx.facts("default")
     rule_r1(facts, ctx)
